@@ -194,7 +194,7 @@ Inductive kwv :=
 
 Section Run.
   Variable vt : vtable.
-  Let build_val := build_val leaf ldefault l_callable.
+  Let build_val := build_val leaf lvalidate lto_python ldefault l_callable lflag (vrun vt).
   Let at_path := at_path_x leaf lvalidate lto_python ldefault l_callable lflag (vrun vt).
 
   (* Config(schema, **kw): keywords through _set_value on the still empty configuration, then defaults *)
